@@ -2081,7 +2081,9 @@ package xpath
 //@   loop * invariant[progress@C06] pmeas(p.r) <= old(pmeas(p.r))
 //@ func (*parser).parseStep
 //@   mode int
-//@   props C06 C10 C17
+//@   props C06 C10 C17 C14
+//@   ensures[principal-node-type@C14] is(result, *axisNode) && old(p.r.typ) != itemDot && old(p.r.typ) != itemDotDot && old(p.r.typ) != itemLParens && as(result, *axisNode).Prop == "" ==> as(result, *axisNode).typeTest == ite(as(result, *axisNode).AxisType == "attribute", AttributeNode, ElementNode)     // a name test or wildcard selects nodes of the principal node type of its axis: attributes on the attribute axis, elements on every other axis
+//@   loop 0 invariant[principal-node-type@C14] is(opnd, *filterNode) || (is(opnd, *axisNode) && old(p.r.typ) != itemDot && old(p.r.typ) != itemDotDot && as(opnd, *axisNode).Prop == "" ==> as(opnd, *axisNode).typeTest == ite(as(opnd, *axisNode).AxisType == "attribute", AttributeNode, ElementNode))
 //@   requires[depth@C06] p != nil && 0 <= p.d && p.d <= 200
 //@   maypanic
 //@   modifies heap(F:scanner.*), p.d
@@ -2106,7 +2108,7 @@ package xpath
 //@   loop * invariant[progress@C06] pmeas(p.r) < old(pmeas(p.r))
 //@ func (*parser).parseNodeTest
 //@   mode int
-//@   props C06 C10 C17
+//@   props C06 C10 C17 C14
 //@   requires[depth@C06] p != nil && 0 <= p.d && p.d <= 200
 //@   maypanic
 //@   modifies heap(F:scanner.*), p.d
@@ -2117,6 +2119,7 @@ package xpath
 //@   ensures[axis@C10,C14] is(result, *axisNode) && as(result, *axisNode).AxisType == axeTyp && as(result, *axisNode).Input == n
 //@   ensures[name-test@C10,C14] old(p.r.typ) == itemStar ==> as(result, *axisNode).typeTest == matchType && as(result, *axisNode).LocalName == "" && as(result, *axisNode).Prefix == ""
 //@   ensures[qualified-name-test@C14] old(p.r.typ) == itemName && !(old(p.r.canBeFunc) && nodeTypeNameAt(old(p.r.name), old(p.r.prefix))) ==> as(result, *axisNode).typeTest == matchType && as(result, *axisNode).Prefix == old(p.r.prefix) && as(result, *axisNode).LocalName == ite(old(p.r.name) == "*", "", old(p.r.name))
+//@   ensures[name-test-has-no-prop@C14] (old(p.r.typ) == itemStar || old(p.r.typ) == itemName && !(old(p.r.canBeFunc) && nodeTypeNameAt(old(p.r.name), old(p.r.prefix)))) == (as(result, *axisNode).Prop == "")     // Prop is empty exactly for a name test or wildcard (node-type tests carry their keyword)
 //@   ensures[nonempty@C17] old(p.r.typ) != itemEOF
 //@   requires[swf@C17] swf(p.r)
 //@   ensures[swf@C17] swf(p.r)
